@@ -253,9 +253,9 @@ def c15_driver(a, col):
     scratch_specs = [
         {"fam": "comp", "type": "Expression", "state_types": ["P", "P"],
          "expr": ["kron", "x", "x"], "context": {"x": {"f": "const", "m": c2j(np.array([[0, 1], [1, 0]]))}}},
-        {"fam": "comp", "type": "Expression", "state_types": ["F", "P"],
+        {"fam": "comp", "type": "Expression", "state_types": ["F", "P"], "types_form": "str",
          "expr": ["kron", "n", "z"], "context": {"n": {"f": "eye", "i": 0}, "z": {"f": "const", "m": c2j(np.diag([1, -1]))}}},
-        {"fam": "comp", "type": "Expression", "state_types": ["X", "X", "P"],
+        {"fam": "comp", "type": "Expression", "state_types": ["X", "X", "P"], "types_form": "mixed",
          "expr": ["kron", "a", "a", "z"], "context": {"a": {"f": "const", "m": c2j(np.eye(2))}, "z": {"f": "const", "m": c2j(np.eye(2))}}},
         {"fam": "fock", "type": "Displace", "alpha": [0.4, -0.2]},
         {"fam": "fock", "type": "PhaseShift", "phi": 1.234},
@@ -330,6 +330,13 @@ def c15_driver(a, col):
         from pwv.contracts import leaves
         for rec in runA.records:
             sp = rec.step.get("op") or {}
+            if rec.op_obj is not None and "state_types" in sp and sp.get("types_form") in ("list", "mixed"):
+                from pwv.opspec import types_value
+                want = types_value(sp)
+                now = rec.op_obj.kwargs.get("state_types")
+                ok = isinstance(now, list) and len(now) == len(want) and all(a is b or a == b for a, b in zip(now, want))
+                col.add([V("C15", ok, "user-list-modified", f"step {rec.i}: the caller's state_types list of {sp['fam']}.{sp['type']} now reads {now!r}",
+                           ("user-array", "state_types"), kind="apply", op=sp["fam"] + "." + sp["type"])], replay)
             if rec.op_obj is not None and "expr" in sp:
                 try:
                     now = [x for x in leaves(rec.op_obj.kwargs["expr"]) if isinstance(x, np.ndarray)]
